@@ -129,6 +129,7 @@ fn fidelity(args: &[String], verif: &Path, seed: u64) -> i32 {
         }
     };
     let n: u64 = arg(args, "--n").map(|s| s.parse().unwrap()).unwrap_or(600);
+    crate::world::sandbox_enter();
     // optional LD_PRELOAD shim that lets the real binary read a chosen wall clock
     let shim: Option<PathBuf> = arg(args, "--clock-shim").map(PathBuf::from);
     let mut compared_clock = 0u64;
